@@ -239,6 +239,7 @@ pub struct W {
     /// Human-readable description of the scenario (filled in when a sample / trace is wanted).
     pub scenario: Option<serde_json::Value>,
     pub want_sample: bool,
+    pub tick_sites: BTreeMap<&'static str, u64>,
 }
 
 pub const STEP_CAP_PANIC: &str = "ZSIM_STEP_CAP";
@@ -286,6 +287,7 @@ impl W {
             watch_class: "watch/changed-without-transport-read",
             scenario: None,
             want_sample: trace,
+            tick_sites: BTreeMap::new(),
         }))
     }
 
@@ -322,7 +324,14 @@ impl W {
     }
 
     pub fn tick(&mut self) {
+        self.tick_at("other")
+    }
+
+    /// One step of logical time, attributed to the seam that took it (shown when a run hits its
+    /// step cap, to tell a livelock from a cap that is simply too low for the scenario).
+    pub fn tick_at(&mut self, site: &'static str) {
         self.steps += 1;
+        *self.tick_sites.entry(site).or_insert(0) += 1;
         if self.steps > self.step_cap {
             std::panic::panic_any(STEP_CAP_PANIC);
         }
@@ -603,7 +612,7 @@ pub async fn yield_n(world: &World, n: usize) {
     std::future::poll_fn(|cx| {
         {
             let mut w = world.borrow_mut();
-            w.tick();
+            w.tick_at("service yield");
             w.seam_env();
         }
         if left == 0 {
@@ -680,7 +689,7 @@ impl Future for ReadFut<'_> {
         let world = this.half.world.clone();
         let mut w = world.borrow_mut();
         let p = this.half.pipe;
-        w.tick();
+        w.tick_at("transport read poll");
         w.seam_env();
         if this.buf.is_empty() {
             // A zero-length read is a caller bug: a stream transport would report 0 = EOF.
@@ -842,7 +851,7 @@ impl Future for WriteFut<'_> {
         let world = this.half.world.clone();
         let mut w = world.borrow_mut();
         let p = this.half.pipe;
-        w.tick();
+        w.tick_at("transport write poll");
         w.seam_env();
         if this.index.is_none() {
             this.index = Some(w.pipes[p].writes_attempted);
@@ -1024,7 +1033,7 @@ impl Future for AcceptFut<'_> {
         let this = &mut *self;
         let world = this.l.world.clone();
         let mut w = world.borrow_mut();
-        w.tick();
+        w.tick_at("accept poll");
         w.seam_env();
         if !w.listener.backlog.is_empty() {
             if w.cfg.accept_pending_despite_backlog && w.tape.chance(1, 4) {
@@ -1096,7 +1105,7 @@ impl SimStream {
     /// Poll for the next (payload id, continues) pair.
     pub fn poll_item(&mut self, cx: &mut Context<'_>) -> Poll<Option<(u64, Option<bool>)>> {
         let mut w = self.world.borrow_mut();
-        w.tick();
+        w.tick_at("reply stream poll");
         w.seam_env();
         let id = self.id;
         if !w.streams[id].available.is_empty() {
